@@ -32,9 +32,31 @@ def classify(grammars):
     return r, [r.res[str(i + 1)] for i in range(len(grammars))]
 
 
+def wrapper_chains(maxdepth=3):
+    """Chains of enclosing constructs over small bodies, alone and followed by a token: the shapes Model.optimized() rewrites
+    ([[e]], [{e}], ({e}), ...) and those with bodies that consume nothing yet can fail (lookaheads)."""
+    import itertools
+    from ..absgrammar import and_, not_, void
+    bodies = [tok('a'), and_(tok('a')), not_(tok('a')), seq(tok('a'), tok('b'))]
+    wraps = ['opt', 'star', 'plus', 'group', 'and', 'not']
+    out = []
+    for d in range(1, maxdepth + 1):
+        for chain in itertools.product(wraps, repeat=d):
+            if any(chain[i] == 'group' and chain[i + 1] == 'group' for i in range(d - 1)):
+                continue
+            for b in bodies:
+                e = b
+                for w in reversed(chain):
+                    e = {'op': w, 'e': e}
+                out.append(grammar(rule('s', seq(e, tok('b')))))
+                if d < maxdepth:
+                    out.append(grammar(rule('s', e)))
+    return out
+
+
 def universe(tier, seed):
     rnd = random.Random(1000 + seed)
-    gs = []
+    gs = wrapper_chains(3)
     for n in (0, 1):
         gs += [with_helpers(e) for e in enum_exprs(n, LEAVES_SMALL)]
     two = [with_helpers(e) for e in enum_exprs(2, LEAVES_SMALL)]
